@@ -6,6 +6,7 @@ import (
 	"fmt"
 	"go/token"
 	"go/types"
+	"sort"
 	"strings"
 
 	"golang.org/x/tools/go/ssa"
@@ -63,40 +64,61 @@ func ruleCacheKey(rule string) func(r *Run) {
 			ok := wholeKey(g.Common().Args[1])
 			r.Check(rule, fmt.Sprintf("(*Router).match:Get key#%d", i+1), w.InstrPos(g), ok, map[bool]string{true: "lookup key = method + whole normalised path (injective in both)", false: "the cache is consulted under a key that is not method + whole path"}[ok])
 		}
-		// the wrapper stores under a key computed from its own parameters only
-		cd := tm.cacheDyn
-		sets := callsToFn(cd, cm.set)
-		for i, s := range sets {
-			ok := flowsOnlyFromParams(s.Common().Args[1], cd)
-			r.Check(rule, fmt.Sprintf("(*Router).cacheDynamicRoute:Set key#%d", i+1), w.InstrPos(s), ok, "the wrapper stores under a key that is a function of the key material it was given")
-		}
-		// every store site uses the lookup key: the key the wrapper computes, with this call's arguments substituted
+		// every fill of the cache (through the wrapper or in line) uses the lookup key
 		lookup := ""
 		if len(gets) == 1 {
 			lookup = canon(gets[0].Common().Args[1])
 		}
+		sites, problems := cacheStoreSites(w, tm)
+		for _, pr := range problems {
+			r.Check(rule, pr.construct, w.InstrPos(pr.in), false, pr.why)
+		}
 		n := 0
-		for _, f := range w.Funcs {
-			for _, c := range callsToFn(f, cd) {
-				n++
-				okK := f == mf && len(sets) > 0 && lookup != ""
-				eff := ""
-				for _, s := range sets {
-					eff = canonSubst(s.Common().Args[1], cd.Params, c.Common().Args)
-					if eff != lookup {
-						okK = false
+		for _, site := range sites {
+			n++
+			okK := site.fn == mf && lookup != "" && site.key == lookup
+			r.Check(rule, fmt.Sprintf("%s:store key#%d", FuncName(site.fn), n), w.InstrPos(site.in), okK,
+				map[bool]string{true: "entries are stored under the key lookup uses (method + whole path)", false: "a dynamic match is cached under a key that lookup never asks for (" + shortCanon(site.key) + "), or outside the matcher: the repeat of the request is a miss again, and different paths overwrite one entry"}[okK])
+		}
+		// every successful dynamic match reaches a fill (or a decision that caching is off) before it returns
+		filled := map[ssa.Instruction]bool{}
+		for _, site := range sites {
+			filled[site.in] = true
+		}
+		enF := w.Field("rux", "Router", "enableCaching")
+		crF := w.Field("rux", "Router", "cachedRoutes")
+		for i, mc := range callsToFn(mf, tm.matchRegex) {
+			okFlag := extractOf(mc.Value(), 1)
+			okAll := okFlag != nil
+			if okAll {
+				fps, complete := exploreFrom(mc.(ssa.Instruction), []condFact{{okFlag, true}}, 4000)
+				okAll = complete && len(fps) > 0
+				for _, fp := range fps {
+					hit := false
+					for _, x := range fp.instrs {
+						if filled[x] {
+							hit = true
+						}
+					}
+					for _, d := range fp.pc.decs {
+						if d.If == nil {
+							continue
+						}
+						if isLoadOfField(d.Cond, enF) && !d.Truth {
+							hit = true
+						}
+						if b, okb := d.Cond.(*ssa.BinOp); okb && (isLoadOfField(b.X, crF) && isNilConst(b.Y)) && ((b.Op == token.EQL && d.Truth) || (b.Op == token.NEQ && !d.Truth)) {
+							hit = true
+						}
+					}
+					if !hit && fp.ret != nil {
+						okAll = false
 					}
 				}
-				r.Check(rule, fmt.Sprintf("%s:store key#%d", FuncName(f), n), w.InstrPos(c), okK,
-					map[bool]string{true: "entries are stored under the key lookup uses (method + whole path)", false: "a dynamic match is cached under a key that lookup never asks for (" + shortCanon(eff) + "): the repeat of the request is a miss again, and different paths overwrite one entry"}[okK])
 			}
-			if f != cd {
-				for _, c := range callsToFn(f, cm.set) {
-					r.Check(rule, fmt.Sprintf("%s:direct Set", FuncName(f)), w.InstrPos(c), false, "the router fills the cache outside cacheDynamicRoute")
-				}
-			}
+			r.Check(rule, fmt.Sprintf("(*Router).match:dynamic success#%d is cached", i+1), w.InstrPos(mc.(ssa.Instruction)), okAll, map[bool]string{true: "every successful regexp match fills the cache (or caching is off) before returning", false: "a successful dynamic match can return without being cached: its repeat is not served from the cache"}[okAll])
 		}
-		r.Check(rule, "(*Router).match:store sites", mf.Pos(), n == 2, fmt.Sprintf("%d store site(s): one per dynamic tier", n))
+		r.Check(rule, "(*Router).match:store sites", mf.Pos(), n >= 1, fmt.Sprintf("%d store site(s) in the matcher", n))
 	}
 }
 
@@ -127,8 +149,38 @@ func ruleC07Copy(r *Run) {
 			}
 		}
 	}
-	r.Check(rule, "(*Route).copyWithParams:whole-struct copy", cw.Pos(), whole, map[bool]string{true: "the copy starts from *r (every field, present and future)", false: "the cached copy is built field by field: a field a request reads can be forgotten"}[whole])
 	allowed := map[*types.Var]bool{tm.regex: true, tm.matches: true, tm.params: true}
+	fieldwise := ""
+	if !whole {
+		// the field-wise spelling: every field of Route (whatever fields the struct has today) except the
+		// three the copy may change is initialised from the same field of the receiver
+		copied := map[*types.Var]bool{}
+		for _, ref := range *cell.Referrers() {
+			if fa, ok := ref.(*ssa.FieldAddr); ok {
+				for _, r2 := range *fa.Referrers() {
+					if st, ok := r2.(*ssa.Store); ok && st.Addr == ssa.Value(fa) && constructionCopy(st) {
+						if ld := st.Val.(*ssa.UnOp); unwrapAddr(ld.X).Base == ssa.Value(cw.Params[0]) {
+							copied[fieldVar(fa.X.Type(), fa.Field)] = true
+						}
+					}
+				}
+			}
+		}
+		var missing []string
+		for _, fv := range w.StructFields("rux", "Route") {
+			if !allowed[fv] && !copied[fv] {
+				missing = append(missing, fv.Name())
+			}
+		}
+		sort.Strings(missing)
+		if len(missing) == 0 {
+			whole = true
+			fieldwise = " (written field by field: all " + fmt.Sprint(len(copied)) + " observable fields are copied)"
+		} else {
+			fieldwise = ": not copied: " + strings.Join(missing, ", ")
+		}
+	}
+	r.Check(rule, "(*Route).copyWithParams:whole-struct copy", cw.Pos(), whole, map[bool]string{true: "the copy starts from *r (every field, present and future)" + fieldwise, false: "the cached copy is built field by field and a field a request reads is forgotten" + fieldwise}[whole])
 	okF := true
 	what := ""
 	for _, ref := range *cell.Referrers() {
@@ -136,6 +188,9 @@ func ruleC07Copy(r *Run) {
 			fv := fieldVar(fa.X.Type(), fa.Field)
 			for _, r2 := range *fa.Referrers() {
 				if st, ok := r2.(*ssa.Store); ok && st.Addr == ssa.Value(fa) {
+					if constructionCopy(st) && unwrapAddr(st.Val.(*ssa.UnOp).X).Base == ssa.Value(cw.Params[0]) {
+						continue // initialised from the receiver's own field
+					}
 					if !allowed[fv] {
 						okF, what = false, fv.Name()
 					}
